@@ -317,6 +317,25 @@ def run(ctx: common.Ctx):
                                    "pydsdl": gen["pydsdl_version"], "rewritten": gen["_rewritten"]}
     except Exception as e:  # tie broken
         ctx.broken.append({"kind": "translator", "error": f"{type(e).__name__}: {e}"})
+    try:
+        from translate import env_ctor
+        ec = env_ctor.run()
+        reads = []
+
+        def walk(e):
+            if e[0] == "loaderAttr":
+                reads.append((e[1], e[2]))
+            for x in e[1:]:
+                if isinstance(x, tuple):
+                    walk(x)
+        for st in ec["ctor_steps"]:
+            if st[0] == "setAllow":
+                walk(st[1])
+        ctx.extra["allow_flag_loader_attributes_read"] = sorted(set(reads))
+        ctx.extra["translator_env_ctor"] = {"allow_assignments": [f"{a['file']}:{a['line']} {a['func']}" for a in ec["assignments"]],
+                                            "constructor_steps": [s_[0] for s_ in ec["ctor_steps"]], "rewritten": ec["_rewritten"]}
+    except Exception as e:  # tie broken
+        ctx.broken.append({"kind": "translator", "which": "env_ctor", "error": f"{type(e).__name__}: {e}"})
     drivers = ctx.prove(["C16"], exes=["resolve"])
     drv = drivers.get("resolve")
 
@@ -610,6 +629,8 @@ def run(ctx: common.Ctx):
                      {"stream": "order", "files": files, "shuffled": sh, "query": target.__name__, "a": str(a), "b": str(b)})
 
     phase("C")
+    msets = run_multidir_stream(ctx, ask, table_classes, index_of, by_name, jenv)
+    phase("C2")
     # ================================================================================================================
     # D. synthetic hierarchies: the loop itself (multiple inheritance, shared names, duplicate stems)
     # ================================================================================================================
@@ -950,6 +971,243 @@ def run(ctx: common.Ctx):
     phase("G")
 
 
+
+# ======================================================================================================================
+# C2. loaders over a LIST of user template directories
+# ======================================================================================================================
+class MultiSources:
+    """1-3 user template directories (in search-path order) and an importable scratch package."""
+
+    def __init__(self, ctx, ndirs):
+        self.pk = Sources(ctx, 0)                    # only its package part is used
+        self.dirs = [self.pk.root / f"d{i}" for i in range(ndirs)]
+        for d in self.dirs:
+            d.mkdir(parents=True)
+        self.user = [dict() for _ in self.dirs]      # per directory: stem -> relative name
+        self.extra = [list() for _ in self.dirs]     # per directory: other files (relative names)
+
+    @property
+    def builtin(self):
+        return self.pk.builtin
+
+    def set(self, stem, where):
+        """`where`: set of directory indices, plus 'p' for the package."""
+        for i, d in enumerate(self.dirs):
+            if i in where and stem not in self.user[i]:
+                (d / (stem + SUFFIX)).write_text(f"USR {i} {stem}")
+                self.user[i][stem] = stem + SUFFIX
+            elif i not in where and stem in self.user[i]:
+                (d / self.user[i].pop(stem)).unlink()
+        self.pk.set(stem, BUILTIN if "p" in where else NONE)
+
+    def add_file(self, i, rel):
+        p = self.dirs[i] / rel
+        p.parent.mkdir(parents=True, exist_ok=True)
+        p.write_text(f"USR {i} extra")
+        self.extra[i].append(rel)
+
+    def drop_extras(self):
+        for i, d in enumerate(self.dirs):
+            for rel in self.extra[i]:
+                (d / rel).unlink()
+            self.extra[i] = []
+
+    def clear(self):
+        for i in range(len(self.dirs)):
+            for stem in list(self.user[i]):
+                (self.dirs[i] / self.user[i].pop(stem)).unlink()
+        self.pk.clear()
+
+    def listing(self, i):
+        return sorted(list(self.user[i].values()) + self.extra[i])
+
+    def user_stems(self):
+        """Stems for which ANY user directory has a template file (root of the directory or below)."""
+        out = set()
+        for i in range(len(self.dirs)):
+            out |= {pathlib.PurePosixPath(r).stem for r in self.listing(i) if pathlib.PurePosixPath(r).suffix == SUFFIX}
+        return out
+
+    def loader(self, mode):
+        from nunavut.jinja.loaders import DSDLTemplateLoader
+        from nunavut._utilities import ResourceSearchPolicy
+        if mode == "fs":
+            return DSDLTemplateLoader(templates_dirs=list(self.dirs), package_name_for_templates=None)
+        return DSDLTemplateLoader(templates_dirs=list(self.dirs), package_name_for_templates=self.pk.pkgname,
+                                  search_policy=ResourceSearchPolicy.FIND_ALL if mode == "both" else ResourceSearchPolicy.FIND_FIRST)
+
+    def describe(self):
+        return {"user_dirs": [self.listing(i) for i in range(len(self.dirs))], "builtin_templates": sorted(self.pk.builtin.values())}
+
+
+def dirs_field(listings):
+    return "!" if listings is None else ";".join(enc_list(x) for x in listings)
+
+
+def multidir_case(ctx, ms, mode, seq, index_of, by_name, jenv, check_enum):
+    """One real loader over the directory list: look-ups `seq`, oracle on the last of them, optional enumeration.
+    Returns the model request lines with the implementation's answers."""
+    ld = ms.loader(mode)
+    has_pkg = ld._package_loader is not None
+    res = run_lookups(ld, seq)
+    cache = {index_of.get(c, -1): ("<None>" if p is None else p.as_posix()) for c, p in ld._type_to_template_lookup_cache.items()}
+    listings = [ms.listing(i) for i in range(len(ms.dirs))]
+    pk = ms.pk.listing(False) if has_pkg else None
+    out = [("seqd @ " + dirs_field(listings) + " " + opt_files(pk) + " " + ",".join(str(index_of[c]) for c in seq), (res, cache))]
+    target, got = seq[-1], res[-1]
+    ustems, bstems = ms.user_stems(), (set(ms.pk.builtin) if has_pkg else set())
+    exp = expected_resolution(target, ustems, bstems)
+    got_stem = None if got is None else pathlib.PurePosixPath(got).stem
+    rp = {"stream": "lookup-dirs", "mode": mode, **ms.describe(), "lookups": [c.__name__ for c in seq], "results": res, "expected": exp}
+    ctx.case(("lookup-dirs", mode, tuple(map(tuple, listings)), tuple(sorted(bstems)), tuple(c.__name__ for c in seq)), bool(ustems or bstems))
+    ctx.count(f"dirs={len(ms.dirs)},mode={mode}")
+    if exp is not None and exp[1] == "user":
+        first = min(i for i in range(len(ms.dirs)) if exp[0] in {pathlib.PurePosixPath(r).stem for r in listings[i] if r.endswith(SUFFIX)})
+        ctx.count("expect-user-template-in-" + ("first-directory" if first == 0 else "later-directory"))
+    if (exp[0] if exp else None) != got_stem:
+        ctx.fail({"kind": "stray-file-taken-as-template"} if got_stem is not None and got_stem not in by_name else {"kind": "not-nearest-class", "user_directories": len(ms.dirs)},
+                 f"{target.__name__} resolved to {got} on a loader over {len(ms.dirs)} user directories; the nearest class of its chain with a template "
+                 f"(in any of the directories or the package) is {exp}", rp)
+    elif exp is not None:
+        # which file is it? get_source must take the FIRST directory that has the resolved name; the package only if no directory has it
+        from nunavut.jinja.jinja2 import TemplateNotFound
+        try:
+            txt = ld.get_source(jenv, got)[0]
+        except TemplateNotFound:
+            txt = "notfound"
+        holders = [i for i in range(len(ms.dirs)) if got in listings[i]]
+        want = f"USR {holders[0]} " if holders else "PKG "
+        if not txt.startswith(want):
+            ctx.fail({"kind": "wrong-source-for-name" if (txt[:3] == "USR") != bool(holders) else "user-directory-order"},
+                     f"{target.__name__} -> {got}: get_source loads {txt!r}, expected the file of {'user directory %d' % holders[0] if holders else 'the package'}",
+                     {**rp, "loaded": txt})
+    if check_enum:
+        # get_templates() (what --list-inputs reports) against resolution
+        enum = [os.path.normpath(str(x)) for x in ld.get_templates()]
+        impl_enum = []
+        for x in enum:
+            if not os.path.isfile(x):
+                ctx.count("get_templates-lists-a-directory")
+                continue
+            for i, d in enumerate(ms.dirs):
+                if x.startswith(str(d) + os.sep):
+                    impl_enum.append(f"u{i}:" + pathlib.Path(x).relative_to(d).as_posix())
+                    break
+            else:
+                impl_enum.append("b:" + pathlib.Path(x).relative_to(ms.pk.tpl).as_posix())
+        out.append(("enum " + dirs_field(listings) + " " + opt_files(pk), sorted(impl_enum)))
+        ctx.count("enumerations")
+        for e in impl_enum:
+            st = pathlib.PurePosixPath(e.split(":", 1)[1]).stem
+            if st in by_name and index_of.get(by_name[st]) is not None:
+                r = ms.loader(mode).type_to_template(by_name[st])
+                if r is None or r.stem != st:
+                    ctx.fail({"kind": "enumerated-template-not-resolvable"},
+                             f"get_templates() lists {e} but type_to_template({st}) gives {r}: the loader enumerates a template named after a class that resolution does not see",
+                             {**rp, "enumerated": e, "lookups": [st], "results": [None if r is None else r.as_posix()]})
+        if got is not None:
+            fn = os.path.normpath(ld.get_source(jenv, got)[1])
+            if fn not in enum:
+                ctx.fail({"kind": "resolved-template-not-enumerated"}, f"{target.__name__} resolves to {fn}, which get_templates() does not list", {**rp, "file": fn})
+    return out
+
+
+def run_multidir_stream(ctx, ask, table_classes, index_of, by_name, jenv):
+    """Every class x (class, one ancestor) x every distribution of the two templates over 1-3 user directories and the
+    package, plus random distributions over whole chains, cold and warm; enumeration against resolution."""
+    import pydsdl
+    rng = ctx.rng
+    lines, impls = [], []
+    dec_files = ["structuretype.j2", "Any.J2", "readme.md", "deep/notaclass.j2", "StructureType.j2.bak"]
+    msets = {}
+    for n in (1, 2, 3):
+        msets[n] = MultiSources(ctx, n)
+        for i in range(n):
+            for f in dec_files[i:]:
+                msets[n].add_file(i, f)
+    nconf = 0
+
+    def states(n, with_pkg):
+        subs = [frozenset(c) for k in range(n + 1) for c in itertools.combinations(range(n), k)]
+        return [s | {"p"} for s in subs] + subs if with_pkg else subs
+
+    under = [c for c in table_classes if issubclass(c, pydsdl.Any)]
+    for ci, target in enumerate(under):
+        chain = chain_to_any(target)
+        pairs = list(dict.fromkeys([(chain[0], a) for a in (chain[1:2] + chain[-1:]) if a is not chain[0]]))
+        if not pairs:
+            pairs = [(chain[0], None)]
+        others = [c for c in chain[1:]]
+        for n in (1, 2, 3):
+            ms = msets[n]
+            ms.clear()
+            for near, far in pairs:
+                for c in others:
+                    ms.set(c.__name__, frozenset())
+                # thorough: the package is part of every distribution; quick: only for one and two directories
+                st = states(n, with_pkg=(n < 3 or not ctx.quick))
+                for k, (a, b) in enumerate(itertools.product(st, st if far is not None else [frozenset()])):
+                    ms.set(near.__name__, a)
+                    if far is not None:
+                        ms.set(far.__name__, b)
+                    mode = "both" if k % 4 else "first"
+                    seq = [target]
+                    if k % 5 == 0:
+                        seq = [rng.choice(chain + target.__subclasses__()) for _ in range(rng.randint(1, 3))] + [target]
+                    for ln, im in multidir_case(ctx, ms, mode, seq, index_of, by_name, jenv, check_enum=(k % 16 == ci % 16)):
+                        lines.append(ln)
+                        impls.append(im)
+                    nconf += 1
+    # random: whole chains, files below sub-directories with the stem of a class, same name in several directories
+    for it in range(600 if ctx.quick else 6000):
+        n = rng.choice((2, 3, 3))
+        ms = msets[n]
+        target = rng.choice(under)
+        if it % 20 == 0:
+            ms.clear()
+            ms.drop_extras()
+            for i in range(n):
+                for f in rng.sample(dec_files, 2):
+                    ms.add_file(i, f)
+                if rng.random() < 0.5:
+                    ms.add_file(i, rng.choice(["sub/", "z/", "A/"]) + rng.choice(under).__name__ + SUFFIX)
+        for c in chain_to_any(target):
+            r = rng.random()
+            ms.set(c.__name__, frozenset() if r < 0.45 else frozenset(rng.sample(list(range(n)) + ["p"], rng.randint(1, n + 1))))
+        seq = [rng.choice(under) for _ in range(rng.randint(0, 3))] + [target]
+        for ln, im in multidir_case(ctx, ms, rng.choice(["both", "both", "first", "fs"]), seq, index_of, by_name, jenv, check_enum=(it % 5 == 0)):
+            lines.append(ln)
+            impls.append(im)
+        nconf += 1
+    # FileSystemLoader.list_templates itself: names in arbitrary order in, `sorted(set(...))` out
+    for n, ms in msets.items():
+        ld = ms.loader("fs")
+        listings = [ms.listing(i) for i in range(n)]
+        for x in listings:
+            rng.shuffle(x)
+        lines.append("fslist " + dirs_field(listings))
+        impls.append(list(ld._fsloader.list_templates()))
+    for (ln, impl), m in zip(zip(lines, impls), ask(lines)):
+        if m is None:
+            continue
+        ctx.traces += 1
+        if ln.startswith("seqd "):
+            pm = parse_seq_answer(m)
+            if isinstance(pm, str) or pm[0] != impl[0] or pm[1] != impl[1]:
+                ctx.disagree("type_to_template-dirs", ln if len(ln) < 700 else ln[:700] + "...",
+                             pm if isinstance(pm, str) else {"results": pm[0], "cache": sorted(pm[1].items())}, {"results": impl[0], "cache": sorted(impl[1].items())})
+        elif ln.startswith("enum "):
+            model = [] if m == "~" else sorted(e.split(":")[0] + ":" + dec(e.split(":")[1]) for e in m.split(","))
+            if model != impl:
+                ctx.disagree("get_templates", ln if len(ln) < 700 else ln[:700] + "...", model, impl)
+        else:
+            model = [] if m == "~" else [dec(e) for e in m.split(",")]
+            if model != impl:
+                ctx.disagree("list_templates", ln if len(ln) < 700 else ln[:700] + "...", model, impl)
+    ctx.extra["lookup_dirs_domain"] = {"configurations": nconf, "requests": len(lines), "classes": len(under)}
+    return msets
+
+
 # ======================================================================================================================
 class Marker:
     """A user-supplied callable / value with an identity."""
@@ -961,56 +1219,158 @@ class Marker:
         return True
 
 
-def reference_environment(root_ns):
-    """Construct a DSDLCodeGenerator without additions and record, from the real code, every `_add_to_environment`
-    call and the phase (inside / after CodeGenEnvironment.__init__) it happened in."""
-    from nunavut.jinja import DSDLCodeGenerator
+def reference_environment(factory):
+    """Construct an environment without additions through `factory()` and record, from the real code, every
+    `_add_to_environment` call, the phase (inside / after CodeGenEnvironment.__init__) and the statement it came from
+    ('lang': language modules, 'own' / 'genm': add_conventional_methods_to_environment inside / after the constructor,
+    'inst': add_test after the constructor)."""
     from nunavut.jinja.environment import CodeGenEnvironment
-    rec, phase = [], {"p": "pre"}
+    rec, phase = [], {"p": "pre", "s": "lang"}
     orig_add, orig_init = CodeGenEnvironment._add_to_environment, CodeGenEnvironment.__init__
+    orig_conv, orig_add_test = CodeGenEnvironment.add_conventional_methods_to_environment, CodeGenEnvironment.add_test
 
     def add(self, item_name, item, collection):
         kind = "f" if collection is self.filters else "t" if collection is self.tests else "g" if collection is self.globals else "o"
-        rec.append((phase["p"], kind, item_name))
+        rec.append((phase["p"], kind, item_name, phase["s"]))
         return orig_add(self, item_name, item, collection)
 
     def init(self, *a, **k):
-        phase["p"] = "pre"
+        phase["p"], phase["s"] = "pre", "lang"
         orig_init(self, *a, **k)
-        phase["p"] = "post"
+        phase["p"], phase["s"] = "post", "other"
+
+    def conv(self, obj):
+        old = phase["s"]
+        phase["s"] = "own" if phase["p"] == "pre" else "genm"
+        try:
+            return orig_conv(self, obj)
+        finally:
+            phase["s"] = old
+
+    def add_test(self, *a, **k):
+        old = phase["s"]
+        phase["s"] = "inst" if phase["p"] == "post" else old
+        try:
+            return orig_add_test(self, *a, **k)
+        finally:
+            phase["s"] = old
 
     CodeGenEnvironment._add_to_environment, CodeGenEnvironment.__init__ = add, init
+    CodeGenEnvironment.add_conventional_methods_to_environment, CodeGenEnvironment.add_test = conv, add_test
     try:
-        g = DSDLCodeGenerator(root_ns)
+        env = factory()
     finally:
         CodeGenEnvironment._add_to_environment, CodeGenEnvironment.__init__ = orig_add, orig_init
-    return g._env, rec
+        CodeGenEnvironment.add_conventional_methods_to_environment, CodeGenEnvironment.add_test = orig_conv, orig_add_test
+    return env, rec
+
+
+BASE_ENTRIES = ("generator", "builder")
+
+
+def env_entries(root_ns, lctx, tdirs):
+    """The ways an environment is constructed, by loader configuration.  name -> factory(allow, globals, filters, tests) -> env.
+    generator*: DSDLCodeGenerator (FIND_FIRST: a templates directory REPLACES the built-in set); support*: SupportGenerator
+    (FIND_ALL: support templates directory AND package); builder*: CodeGenEnvironmentBuilder over a loader object."""
+    from nunavut.jinja import DSDLCodeGenerator, SupportGenerator, CodeGenEnvironmentBuilder
+    from nunavut.jinja.loaders import DSDLTemplateLoader
+    from nunavut.jinja.jinja2 import DictLoader
+    from nunavut._utilities import ResourceSearchPolicy
+    pkg = "nunavut.lang.c"
+
+    def gen(cls, **kw):
+        return lambda allow, g, f, t: cls(root_ns, additional_globals=g, additional_filters=f, additional_tests=t, **kw)._env
+
+    def bld(mk_loader):
+        def make(allow, g, f, t):
+            b = CodeGenEnvironmentBuilder(mk_loader(), lctx)
+            b.set_allow_filter_test_or_use_query_overwrite(allow)
+            for add, d in ((b.add_globals, g), (b.add_filters, f), (b.add_tests, t)):
+                if d:
+                    add(**d)
+            return b.create()
+        return make
+
+    return {
+        "generator": gen(DSDLCodeGenerator),
+        "generator+templates_dir": gen(DSDLCodeGenerator, templates_dir=tdirs[0]),
+        "generator+templates_dirs": gen(DSDLCodeGenerator, templates_dir=list(tdirs)),
+        "support": gen(SupportGenerator),
+        "support+templates_dir": gen(SupportGenerator, support_templates_dir=tdirs[0]),
+        "builder": bld(lambda: DSDLTemplateLoader(package_name_for_templates=pkg)),
+        "builder+fs": bld(lambda: DSDLTemplateLoader(templates_dirs=[tdirs[0]])),
+        "builder+fs+package": bld(lambda: DSDLTemplateLoader(templates_dirs=list(tdirs), package_name_for_templates=pkg)),
+        "builder+fs-first": bld(lambda: DSDLTemplateLoader(templates_dirs=[tdirs[0]], package_name_for_templates=pkg,
+                                                            search_policy=ResourceSearchPolicy.FIND_FIRST)),
+        "builder+dict": bld(lambda: DictLoader({"Any.j2": "x"})),
+    }
+
+
+def env_template_dirs(ctx):
+    out = []
+    for i in range(2):
+        d = ctx.scratch / f"envtd{i}"
+        d.mkdir(exist_ok=True)
+        (d / ("Any.j2" if i == 0 else "StructureType.j2")).write_text("{{ T.short_name }}\n")
+        out.append(d)
+    return out
+
+
+class EntryRef:
+    """What one way of constructing the environment holds without additions."""
+
+    def __init__(self, name, factory, reserved, lang_globals):
+        self.name, self.factory = name, factory
+        self.env, rec = reference_environment(lambda: factory(False, None, None, None))
+        self.pre_f = [n for p, k, n, _ in rec if p == "pre" and k == "f"]
+        self.pre_t = [n for p, k, n, _ in rec if p == "pre" and k == "t"]
+        self.post = [(k, n) for p, k, n, _ in rec if p == "post" and k in "ft"]
+        unknown = [r for r in rec if r[1] in "ft" and r[3] not in ("lang", "own", "inst", "genm")]
+        if unknown:
+            raise RuntimeError(f"{name}: additions from a statement the harness does not attribute: {unknown[:3]}")
+        sel = lambda st, k: [n for p, kk, n, s_ in rec if s_ == st and kk == k]  # noqa: E731
+        kinded = lambda st: ",".join(k + ":" + enc(n) for p, k, n, s_ in rec if s_ == st and k in "ft") or "~"  # noqa: E731
+        self.which = "gen" if name.startswith("generator") else "sup" if name.startswith("support") else "bld"
+        self.sm_fields = lambda: " ".join([enc_list(self.jf), enc_list(self.jt), enc_list(self.jg), enc_list(lang_globals), enc_list(sel("lang", "f")),
+                                           enc_list(sel("lang", "t")), enc_list(sel("own", "f")), enc_list(sel("own", "t")), kinded("inst"), kinded("genm")])
+        added_f = set(self.pre_f) | {n for k, n in self.post if k == "f"}
+        added_t = set(self.pre_t) | {n for k, n in self.post if k == "t"}
+        self.jf = [n for n in self.env.filters if n not in added_f]
+        self.jt = [n for n in self.env.tests if n not in added_t]
+        self.jg = [n for n in self.env.globals if n not in reserved and n not in lang_globals]
+        self.cfg_fields = " ".join([enc_list(self.jf), enc_list(self.jt), enc_list(self.jg), enc_list(lang_globals), enc_list(self.pre_f), enc_list(self.pre_t)])
+        self.post_field = ",".join(k + ":" + enc(n) for k, n in self.post) if self.post else "~"
+        self.names = {"f": set(self.env.filters), "t": set(self.env.tests), "g": set(self.env.globals)}
+        self.allow_possible = name.startswith("builder")
+        ld = self.env.loader
+        self.loader_object = ld
+        self.loader = {"class": type(ld).__name__, "fs": getattr(ld, "_fsloader", None) is not None, "package": getattr(ld, "_package_loader", None) is not None}
+
+    def category(self, kind, n, reserved, lang_globals):
+        if kind == "g":
+            return "reserved" if n in reserved else "language-global" if n in lang_globals else "jinja-default"
+        if n in (self.jf if kind == "f" else self.jt):
+            return "jinja-default"
+        if (kind, n) in self.post:
+            return "nunavut-after-create"
+        return "nunavut-ln" if n.startswith("ln.") else "nunavut"
 
 
 def run_env_stream(ctx, ask, root_ns, lctx, corpus):
-    from nunavut.jinja import DSDLCodeGenerator, CodeGenEnvironmentBuilder
     from nunavut.jinja.environment import CodeGenEnvironment
-    from nunavut.jinja.loaders import DSDLTemplateLoader
     rng = ctx.rng
-    ref_env, rec = reference_environment(root_ns)
     lang = lctx.get_target_language().name
-    ref_builder_env = CodeGenEnvironmentBuilder(DSDLTemplateLoader(package_name_for_templates="nunavut.lang.c"), lctx).create()
     reserved = set(CodeGenEnvironment.RESERVED_GLOBAL_NAMESPACES) | set(CodeGenEnvironment.RESERVED_GLOBAL_NAMES)
     lang_globals = list(lctx.get_target_language().get_globals().keys())
-    pre_f = [n for p, k, n in rec if p == "pre" and k == "f"]
-    pre_t = [n for p, k, n in rec if p == "pre" and k == "t"]
-    post = [(k, n) for p, k, n in rec if p == "post" and k in "ft"]
-    added_f = set(pre_f) | {n for k, n in post if k == "f"}
-    added_t = set(pre_t) | {n for k, n in post if k == "t"}
-    jf = [n for n in ref_env.filters if n not in added_f]
-    jt = [n for n in ref_env.tests if n not in added_t]
-    jg = [n for n in ref_env.globals if n not in reserved and n not in lang_globals]
-    ctx.extra.setdefault("environment", {})[lctx.get_target_language().name] = {"jinja_filters": len(jf), "jinja_tests": len(jt), "jinja_globals": sorted(jg), "language_globals": len(lang_globals),
-                                "pre_filters": len(pre_f), "pre_tests": len(pre_t), "post_additions": len(post),
-                                "target": lctx.get_target_language().name}
-    cfg_fields = " ".join([enc_list(jf), enc_list(jt), enc_list(jg), enc_list(lang_globals), enc_list(pre_f), enc_list(pre_t)])
-    post_field = ",".join(k + ":" + enc(n) for k, n in post) if post else "~"
-    builtin_names = {"f": set(ref_env.filters), "t": set(ref_env.tests), "g": set(ref_env.globals)}
+    factories = env_entries(root_ns, lctx, env_template_dirs(ctx))
+    refs = {name: EntryRef(name, f, reserved, lang_globals) for name, f in factories.items()}
+    g_ref = refs["generator"]
+    jf, jt, jg = g_ref.jf, g_ref.jt, g_ref.jg
+    ctx.extra.setdefault("environment", {})[lang] = {
+        "jinja_filters": len(jf), "jinja_tests": len(jt), "jinja_globals": sorted(jg), "language_globals": len(lang_globals),
+        "pre_filters": len(g_ref.pre_f), "pre_tests": len(g_ref.pre_t), "post_additions": len(g_ref.post), "target": lang,
+        "loader_configurations": {n: r.loader for n, r in refs.items()}}
+    builtin_names = g_ref.names
 
     def pick(kind):
         """A name for an additional filter ('f') / test ('t') / global ('g')."""
@@ -1044,23 +1404,10 @@ def run_env_stream(ctx, ask, root_ns, lctx, corpus):
 
     def build(entry, allow, ug, uf, ut):
         """Real construction. Returns ('ok', env) or ('err', kind, name)."""
-        kw = {}
         mk = lambda names: {n: Marker(i) for i, n in enumerate(names)}  # noqa: E731
         g, f, t = mk(ug), mk(uf), mk(ut)
         try:
-            if entry == "generator":
-                env = DSDLCodeGenerator(root_ns, additional_globals=g if ug else None, additional_filters=f if uf else None,
-                                        additional_tests=t if ut else None)._env
-            else:
-                b = CodeGenEnvironmentBuilder(DSDLTemplateLoader(package_name_for_templates="nunavut.lang.c"), lctx)
-                b.set_allow_filter_test_or_use_query_overwrite(allow)
-                if ug:
-                    b.add_globals(**g)
-                if uf:
-                    b.add_filters(**f)
-                if ut:
-                    b.add_tests(**t)
-                env = b.create()
+            env = factories[entry](allow, g if ug else None, f if uf else None, t if ut else None)
         except RuntimeError as e:
             msg = str(e)
             if msg.endswith(" was already defined."):
@@ -1078,9 +1425,10 @@ def run_env_stream(ctx, ask, root_ns, lctx, corpus):
             out[k] = "U%d" % v.i if isinstance(v, Marker) and any(v is m for m in markers.values()) else "B"
         return out
 
+    one = lambda k, x: ([x] if k == "g" else [], [x] if k == "f" else [], [x] if k == "t" else [])  # noqa: E731
     cases = []
     for c in corpus:
-        if c.get("stream") == "env":
+        if c.get("stream") == "env" and c.get("entry", "generator") in factories:
             cases.append((c.get("entry", "generator"), bool(c.get("allow", False)), c.get("globals", []), c.get("filters", []), c.get("tests", [])))
     # EVERY name the finished environment holds (globals, filters, tests of a real environment built without additions: Jinja
     # defaults, reserved namespaces, now_utc, language-support globals/filters/tests incl. ln.<lang>.<x>, instance tests, the
@@ -1090,7 +1438,6 @@ def run_env_stream(ctx, ask, root_ns, lctx, corpus):
     rot = rng.randrange(3)
     for kind in "gft":
         for i, n in enumerate(sorted(builtin_names[kind])):
-            one = lambda k, x: ([x] if k == "g" else [], [x] if k == "f" else [], [x] if k == "t" else [])  # noqa: E731
             cases.append(("generator", False) + one(kind, n))
             cases.append(("builder", False) + one(kind, n))
             if kind == "g" or not ctx.quick or (i + rot) % 3 == 0:
@@ -1106,9 +1453,31 @@ def run_env_stream(ctx, ask, root_ns, lctx, corpus):
             if kind == "t":
                 cases.append(("generator", False, [], [], ["is_" + n]))
     ctx.count("env-exhaustive-names-" + lang, sum(len(v) for v in builtin_names.values()))
+    # ... crossed with the LOADER CONFIGURATION the environment is created over: whether a collision is refused must not depend
+    # on it.  Per configuration: of every collection and every category of built-in name (Jinja default, reserved, language
+    # global, language support ln.<x>, target-language support, installed after create()) the first name and a random one, every
+    # global, and every `step`-th other name (quick: 6th, rotating with the seed; thorough: all).
+    step = 6 if ctx.quick else 1
+    rot2 = rng.randrange(step)
+    for entry, ref in refs.items():
+        if entry in BASE_ENTRIES:
+            continue
+        for kind in "gft":
+            by_cat = {}
+            for n in sorted(ref.names[kind]):
+                by_cat.setdefault(ref.category(kind, n, reserved, lang_globals), []).append(n)
+            chosen = set()
+            for cat, ns in by_cat.items():
+                chosen |= {ns[0], rng.choice(ns)}
+                ctx.count(f"env-loader-config-category:{kind}:{cat}")
+            chosen |= {n for i, n in enumerate(sorted(ref.names[kind])) if kind == "g" or (i + rot2) % step == 0}
+            for n in sorted(chosen):
+                cases.append((entry, False) + one(kind, n))
+                if ref.allow_possible and (kind == "g" or not ctx.quick):
+                    cases.append((entry, True) + one(kind, n))
     for _ in range(40 if ctx.quick else 400):
-        entry = rng.choice(["generator", "builder", "builder"])
-        allow = entry == "builder" and rng.random() < 0.4
+        entry = rng.choice(["generator", "builder", "builder"] + [e for e in refs if e not in BASE_ENTRIES])
+        allow = refs[entry].allow_possible and rng.random() < 0.4
         ug = list(dict.fromkeys(pick("g") for _ in range(rng.choice([0, 0, 1, 1, 2, 3]))))
         uf = list(dict.fromkeys(pick("f") for _ in range(rng.choice([0, 0, 1, 1, 2, 3]))))
         ut = list(dict.fromkeys(pick("t") for _ in range(rng.choice([0, 0, 1, 1, 2, 3]))))
@@ -1116,14 +1485,23 @@ def run_env_stream(ctx, ask, root_ns, lctx, corpus):
             continue
         cases.append((entry, allow, ug, uf, ut))
     lines, impls, metas = [], [], []
+    sm_lines, sm_flags = [], []
+    # the boolean attributes of the loader object the regenerated flag expression reads (none on the unchanged tree)
+    attr_reads = ctx.extra.get("allow_flag_loader_attributes_read", [])
+    for r in refs.values():
+        r.attrs_field = ",".join(enc(a) + "=" + ("1" if getattr(r.loader_object, a, d) else "0") for a, d in attr_reads) or "~"
+        r.sm_cfg = r.sm_fields()
     for entry, allow, ug, uf, ut in cases:
+        ref = refs[entry]
         res, (mg, mf, mt) = build(entry, allow, ug, uf, ut)
-        pf = post_field if entry == "generator" else "~"
-        lines.append(f"env new {1 if allow else 0} {cfg_fields} {pf} {enc_list(ug)} {enc_list(uf)} {enc_list(ut)}")
-        collides = any(n in builtin_names["g"] for n in ug) or any(strip_prefix(n) in builtin_names["f"] for n in uf) \
-            or any(strip_prefix(n) in builtin_names["t"] for n in ut)
+        lines.append(f"env new {1 if allow else 0} {ref.cfg_fields} {ref.post_field} {enc_list(ug)} {enc_list(uf)} {enc_list(ut)}")
+        sm_lines.append(f"envsm {ref.which} {1 if allow else 0} {ref.attrs_field} {ref.sm_cfg} {enc_list(ug)} {enc_list(uf)} {enc_list(ut)}")
+        sm_flags.append(("1" if res[1]._allow_replacements else "0") if res[0] == "ok" else None)
+        collides = any(n in ref.names["g"] for n in ug) or any(strip_prefix(n) in ref.names["f"] for n in uf) \
+            or any(strip_prefix(n) in ref.names["t"] for n in ut)
         ctx.case(("env", lang, entry, allow, tuple(ug), tuple(uf), tuple(ut)), collides or any("_" in n for n in uf + ut))
         ctx.count("env-entry=" + entry + (",allow" if allow else ""))
+        rp = {"stream": "env", "language": lang, "entry": entry, "loader": ref.loader, "allow": allow, "globals": ug, "filters": uf, "tests": ut}
         if res[0] == "err":
             impls.append(("err", res[1], res[2]))
             ctx.count("env-raised-" + res[1])
@@ -1134,48 +1512,50 @@ def run_env_stream(ctx, ask, root_ns, lctx, corpus):
             # property: every name the environment defines without the additions keeps its built-in value (allow flag off):
             # (a) compared with the value in the reference environment, (b) it is not the user's object
             if not allow:
-                ref = ref_env if entry == "generator" else ref_builder_env
-                for cname, coll, rcoll in (("filters", env.filters, ref.filters), ("tests", env.tests, ref.tests), ("globals", env.globals, ref.globals)):
+                for cname, coll, rcoll in (("filters", env.filters, ref.env.filters), ("tests", env.tests, ref.env.tests), ("globals", env.globals, ref.env.globals)):
                     for k, r in rcoll.items():
                         v = coll.get(k, None)
                         if isinstance(v, Marker) or k not in coll or type(v) is not type(r) or \
                                 (isinstance(r, (str, int, float, bool, tuple, type)) and v != r):
                             if not isinstance(v, Marker):  # Marker cases are reported with a precise key below
                                 ctx.fail({"kind": "builtin-value-changed", "collection": cname},
-                                         f"{cname}[{k!r}] is {v!r} after adding {ug + uf + ut}, {r!r} without additions",
-                                         {"stream": "env", "language": lang, "entry": entry, "allow": allow, "globals": ug, "filters": uf, "tests": ut, "name": k})
+                                         f"{cname}[{k!r}] is {v!r} after adding {ug + uf + ut}, {r!r} without additions", {**rp, "name": k})
                 for kind, coll, markers in (("f", env.filters, mf), ("t", env.tests, mt), ("g", env.globals, mg)):
                     for k, v in coll.items():
                         if not isinstance(v, Marker):
                             continue
-                        was_builtin = (k in builtin_names[kind]) if entry == "generator" else \
-                            (k in (set(jf) | set(pre_f) if kind == "f" else set(jt) | set(pre_t) if kind == "t" else builtin_names["g"]))
-                        if was_builtin:
-                            what = ("reserved" if k in reserved else "jinja-default" if k in (jg if kind == "g" else jf if kind == "f" else jt)
-                                    else "language-global" if kind == "g" and k in lang_globals else "nunavut")
-                            ctx.fail({"kind": "silent-replacement", "collection": {"f": "filters", "t": "tests", "g": "globals"}[kind], "of": what},
-                                     f"additional {'global' if kind == 'g' else 'filter' if kind == 'f' else 'test'} {k!r} replaced the built-in of that name without an error",
-                                     {"stream": "env", "language": lang, "entry": entry, "allow": allow, "globals": ug, "filters": uf, "tests": ut, "replaced": k})
+                        if k in ref.names[kind]:
+                            what = ref.category(kind, k, reserved, lang_globals)
+                            what = "nunavut" if what.startswith("nunavut") else what
+                            key = {"kind": "silent-replacement", "collection": {"f": "filters", "t": "tests", "g": "globals"}[kind], "of": what}
+                            if entry not in BASE_ENTRIES:
+                                # the same collision is refused over another loader configuration?
+                                base = build("generator" if not entry.startswith("builder") else "builder", False, ug, uf, ut)[0]
+                                key["loader_configuration"] = entry
+                                key["refused_without_it"] = base[0] == "err"
+                            ctx.fail(key,
+                                     f"additional {'global' if kind == 'g' else 'filter' if kind == 'f' else 'test'} {k!r} replaced the built-in of that name without an error"
+                                     f" (environment created through {entry}, loader {ref.loader})", {**rp, "replaced": k})
             # property, REGARDLESS of the allow flag (it is documented for filters, tests and use-queries only): the reserved
             # globals (RESERVED_GLOBAL_NAMESPACES / _NAMES, what the constructor installs as reserved) and the target language's
             # globals keep their built-in value — the constructor raises or they are what they are without additions
             if allow:
-                ref = ref_env if entry == "generator" else ref_builder_env
                 for k in sorted(reserved | set(lang_globals)):
-                    r, v = ref.globals.get(k), env.globals.get(k)
+                    r, v = ref.env.globals.get(k), env.globals.get(k)
                     if isinstance(v, Marker) or k not in env.globals or type(v) is not type(r) or \
                             (isinstance(r, (str, int, float, bool, tuple, type)) and v != r):
                         ctx.fail({"kind": "silent-replacement" if isinstance(v, Marker) else "builtin-value-changed", "collection": "globals",
                                   "of": "reserved" if k in reserved else "language-global", "allow": True},
                                  f"with the allow flag on, additional global {k!r} replaced the {'reserved' if k in reserved else 'language'} global (value now {v!r})",
-                                 {"stream": "env", "language": lang, "entry": entry, "allow": True, "globals": ug, "filters": uf, "tests": ut, "replaced": k})
-            if True:
-                # observation (not a replacement of a built-in): a user global the language globals overwrote
-                for n in ug:
-                    if n in lang_globals and not isinstance(env.globals.get(n), Marker):
-                        ctx.count("user-global-silently-dropped-by-language-global")
+                                 {**rp, "allow": True, "replaced": k})
+            # observation (not a replacement of a built-in): a user global the language globals overwrote
+            for n in ug:
+                if n in lang_globals and not isinstance(env.globals.get(n), Marker):
+                    ctx.count("user-global-silently-dropped-by-language-global")
         metas.append((entry, allow, ug, uf, ut))
-    for ln, impl, meta, m in zip(lines, impls, metas, ask(lines)):
+    both = [(ln, impl, meta, None) for ln, impl, meta in zip(lines, impls, metas)] + \
+        [(ln, impl, meta, fl) for ln, impl, meta, fl in zip(sm_lines, impls, metas, sm_flags)]
+    for (ln, impl, meta, flag), m in zip(both, ask([b[0] for b in both])):
         if m is None:
             continue
         ctx.traces += 1
@@ -1183,7 +1563,12 @@ def run_env_stream(ctx, ask, root_ns, lctx, corpus):
             _, kind, nm = m.split(":")
             model = ("err", kind, dec(nm))
         elif m.startswith("ok|"):
-            _, f, t, g = m.split("|")
+            parts = m.split("|")
+            if len(parts) == 5:   # the state machine also reports the flag the construction ended with
+                if flag is not None and parts[4] != "flag=" + flag:
+                    ctx.disagree("environment-allow-flag", {"entry": meta[0], "loader": refs[meta[0]].loader, "allow_argument": meta[1]}, parts[4], "flag=" + flag)
+                parts = parts[:4]
+            _, f, t, g = parts
             canon = lambda s: {dec(e.split("=")[0]): (e.split("=")[1] if e.split("=")[1].startswith("U") else "B")  # noqa: E731
                                for e in s.split(",")} if s != "~" else {}
             model = ("ok", canon(f), canon(t), canon(g))
@@ -1194,7 +1579,7 @@ def run_env_stream(ctx, ask, root_ns, lctx, corpus):
                 if isinstance(x, tuple) and x and x[0] == "ok":
                     return ("ok",) + tuple(sorted((k, v) for k, v in d.items() if v != "B") for d in x[1:]) + tuple(len(d) for d in x[1:])
                 return x
-            ctx.disagree("environment", {"entry": meta[0], "allow": meta[1], "globals": meta[2], "filters": meta[3], "tests": meta[4]},
+            ctx.disagree("environment" if ln.startswith("env ") else "environment-state-machine", {"entry": meta[0], "loader": refs[meta[0]].loader, "allow": meta[1], "globals": meta[2], "filters": meta[3], "tests": meta[4]},
                          short(model), short(impl))
     ctx.sample({"stream": "env", "case": {"globals": ["range"]},
                 "result": (lambda r: r[0][:3] if r[0][0] == "err" else "constructed; globals['range'] is the user's: %s"
